@@ -197,6 +197,21 @@ def updateN : Nat → Val → Val → Option Val
   | n + 2, e, .pair a b => (updateN n e b).map (.pair a)
   | _, _, _ => none
 
+/-- further rules without sub-programs (kept apart from `step` so that either pattern match stays small) -/
+def stepMore (env : Env) : Instr → List Val → Res (List Val)
+  | .TOTAL_VOTING_POWER, st => (numOk .nat env.totalVotingPower).bind fun r => .ok (r :: st)
+  | .MIN_BLOCK_TIME, st => (numOk .nat env.minBlockTime).bind fun r => .ok (r :: st)
+  -- cryptographic hashes of a byte sequence (the functions themselves are parameters: `env.hashes`)
+  | .BLAKE2B, .bytes b :: st => .ok (.bytes (env.hashes.blake2b b) :: st)
+  | .SHA256, .bytes b :: st => .ok (.bytes (env.hashes.sha256 b) :: st)
+  | .SHA512, .bytes b :: st => .ok (.bytes (env.hashes.sha512 b) :: st)
+  | .KECCAK, .bytes b :: st => .ok (.bytes (env.hashes.keccak b) :: st)
+  | .SHA3, .bytes b :: st => .ok (.bytes (env.hashes.sha3 b) :: st)
+  -- `CAST t` / `RENAME`: identity on a top element of type `t` / on any top element (annotations are not modelled)
+  | .CAST t, x :: st => if typeOf x = t then .ok (x :: st) else .err
+  | .RENAME, x :: st => .ok (x :: st)
+  | _, _ => .err
+
 /-- the rules for instructions without sub-programs -/
 def step (env : Env) : Instr → List Val → Res (List Val)
   | .DROP, _ :: st => .ok st
@@ -317,7 +332,7 @@ def step (env : Env) : Instr → List Val → Res (List Val)
   | .NOW, st => .ok (.num .timestamp env.now :: st)
   | .LEVEL, st => (numOk .nat env.level).bind fun r => .ok (r :: st)
   | .CHAIN_ID, st => .ok (.atom .chainId env.chainId :: st)
-  | _, _ => .err
+  | i, st => stepMore env i st
 
 /-- element type the typing rule gives to `MAP body` over a collection with element type `elt` -/
 def mapOutTy (body : Instr) (elt : Ty) (st : List Val) : Option Ty :=
